@@ -102,3 +102,41 @@ Print Assumptions C17_multi_is_concat.
 Theorem C17_multi_len_eq_length : forall m l, mgenerate m = Ok l -> mlen m = Ok (length l).
 Proof. exact mlen_eq_length. Qed.
 Print Assumptions C17_multi_len_eq_length.
+
+From Verif Require Import Proofs.SweepCount Proofs.SweepFilter.
+
+(* filtered_sweep(keys) of a sweep WITH derivers: the distinct projections onto keys, each exactly once
+   (holds with constants and exclude as well; keys non-empty, without repetition, present in every combination) *)
+Theorem C17_filtered_is_projection_derivers : forall s keys l d0,
+  ders s = Some d0 -> keys <> [] -> NoDup keys ->
+  generate s = Ok l -> (forall c, In c l -> forall k, In k keys -> dget c k <> None) ->
+  exists f l', filtered s keys = Ok f /\ generate f = Ok l' /\ len f = Ok (length l')
+    /\ NoDup l' /\ (forall x, In x l' <-> In x (map (proj keys) l)).
+Proof. exact filtered_with_derivers. Qed.
+Print Assumptions C17_filtered_is_projection_derivers.
+
+(* filtered_sweep(keys) of a sweep WITHOUT derivers, constants and exclude: the full statement is false of the
+   code (known finding filtered-ignores-empty-dimension): *)
+Theorem C17_filtered_is_projection_refuted :
+  exists sw keys f l l',
+    wf_sweep sw = true /\ in_item_order sw = true
+    /\ consts sw = None /\ excl sw = None /\ ders sw = None
+    /\ Forall (fun kv => nodup_vals (snd kv) = true) (items sw)
+    /\ keys <> [] /\ NoDup keys /\ incl keys (concat (groups sw))
+    /\ generate sw = Ok l /\ filtered sw keys = Ok f /\ generate f = Ok l'
+    /\ l = [] /\ length l' = 2.
+Proof. exact filtered_empty_dimension_witness. Qed.
+Print Assumptions C17_filtered_is_projection_refuted.
+
+(* count_sweep (counting loop, given the (dependency, root_args) pairs of the pipeline): every root-argument tuple
+   that occurs is reported exactly once, with the number of combinations sharing it *)
+Theorem C17_count_sweep_counts : forall deps cs r,
+  count_sweep deps cs = Ok r ->
+  map fst r = map fst deps
+  /\ Forall2 (fun da dc =>
+       let args := snd da in let cnt := snd dc in
+       NoDup (map fst cnt)
+       /\ (forall key n, In (key, n) cnt -> n = count_of args cs key /\ 0 < n)
+       /\ (forall c, In c cs -> In (tuple_of args c) (map fst cnt))) deps r.
+Proof. exact count_sweep_counts. Qed.
+Print Assumptions C17_count_sweep_counts.
